@@ -820,27 +820,33 @@ Proof.
     split; [assumption|]. left. eauto.
 Qed.
 
-(** the guard under which timestamp arithmetic does not leave int64 (KF-C20-2) *)
-Definition no_ts_overflow (tr : list value) : Prop :=
-  Forall (fun x => vts x + vdmax x <= max_i64) tr.
+(** since df96f85 a successful step of a value never moves its timestamp back
+    (before: only while [ts + delta_max <= MaxInt64], see update_ts_unpatched_wraps) *)
+Definition ts_monotone_steps : Prop :=
+  forall v g v' g', next_value v g = RV (Some v') g' -> vts v <= vts v'.
 
-Lemma run_sorted_lb n : forall q lb,
+Lemma ts_monotone_fixed : fix_C20_2 = true -> ts_monotone_steps.
+Proof.
+  intros Hfix v g v' g' H. apply next_value_some in H.
+  destruct H as (_ & _ & _ & _ & _ & (t & t' & Hts) & _).
+  unfold update_ts in Hts. rewrite Hfix in Hts. eapply update_ts_gen_mono; eauto.
+Qed.
+
+Lemma run_sorted_lb n : ts_monotone_steps -> forall q lb,
   wf (qb q) -> Forall (fun x => lb <= vts x) (flat (qb q)) ->
-  no_ts_overflow (fst (run n q)) ->
   StronglySorted Z.le (map vts (fst (run n q))) /\ Forall (fun x => lb <= vts x) (fst (run n q)).
 Proof.
-  induction n as [|n IH]; intros q lb Hwf Hlb Hg; cbn [run] in *.
+  intros Hmono. induction n as [|n IH]; intros q lb Hwf Hlb; cbn [run] in *.
   - cbn. split; constructor.
   - destruct (next q) as [|v q'| | |] eqn:En; cbn in *; try solve [split; constructor].
     destruct (next_emit _ _ _ Hwf En) as (rest & Hfl & Hwf' & Hmin & Hcase).
     rewrite Hfl in Hlb. inversion Hlb as [|? ? Hv Hrest]; subst.
-    inversion Hg as [|? ? Hgv Hg']; subst.
     assert (Hlb' : Forall (fun x => vts v <= vts x) (flat (qb q'))).
     { destruct Hcase as [(g' & _ & ->)|(v' & g' & m1 & m2 & Hnv & -> & -> & _ & _)]; [assumption|].
       apply Forall_app in Hmin. destruct Hmin as [Hm1 Hm2].
       apply Forall_app. split; [assumption|]. constructor; [|assumption].
-      destruct (next_value_ts_step' _ _ _ _ Hnv) as [_ Hs]. specialize (Hs Hgv). lia. }
-    destruct (IH q' (vts v) Hwf' Hlb' Hg') as [Hs Hall].
+      eapply Hmono; eauto. }
+    destruct (IH q' (vts v) Hwf' Hlb') as [Hs Hall].
     split.
     + constructor; [assumption|]. rewrite Forall_map. assumption.
     + constructor; [assumption|]. eapply Forall_impl; [|exact Hall]. cbn. intros; lia.
@@ -877,27 +883,22 @@ Proof.
 Qed.
 
 (** clause 1: for every configuration and every tape the emitted timestamps
-    never decrease, as long as no timestamp addition leaves int64 *)
+    never decrease (unconditional since df96f85: a step that would leave int64
+    is an error, which ends the stream) *)
 Theorem ts_nondecreasing vs g ds n :
-  no_ts_overflow (fst (run_cfg vs g ds n)) ->
   StronglySorted Z.le (map vts (fst (run_cfg vs g ds n))).
 Proof.
+  pose proof (ts_monotone_fixed eq_refl) as Hmono.
   unfold run_cfg. destruct (reset vs g ds) as [q| |] eqn:E; cbn; try constructor.
-  intros Hg. pose proof (reset_wf _ _ _ _ E) as Hwf.
+  pose proof (reset_wf _ _ _ _ E) as Hwf.
   destruct (flat (qb q)) as [|v0 rest] eqn:Ef.
   - destruct n; cbn; [constructor|]. unfold next.
     destruct (qb q) as [|[|] ?]; cbn; try constructor; discriminate.
-  - destruct n as [|n]; [cbn; constructor|].
-    cbn [run] in *. destruct (next q) as [|v q'| | |] eqn:En; cbn in *; try solve [constructor].
-    destruct (next_emit _ _ _ Hwf En) as (rest' & Hfl & Hwf' & Hmin & Hcase).
-    inversion Hg as [|? ? Hgv Hg']; subst.
-    assert (Hlb' : Forall (fun x => vts v <= vts x) (flat (qb q'))).
-    { destruct Hcase as [(g' & _ & ->)|(v' & g' & m1 & m2 & Hnv & -> & -> & _ & _)]; [assumption|].
-      apply Forall_app in Hmin. destruct Hmin as [Hm1 Hm2].
-      apply Forall_app. split; [assumption|]. constructor; [|assumption].
-      destruct (next_value_ts_step' _ _ _ _ Hnv) as [_ Hs]. specialize (Hs Hgv). lia. }
-    destruct (run_sorted_lb n q' (vts v) Hwf' Hlb' Hg') as [Hs Hall].
-    constructor; [assumption|]. rewrite Forall_map. assumption.
+  - assert (Hlb : Forall (fun x => vts v0 <= vts x) (flat (qb q))).
+    { destruct (qb q) as [|[|w r0] bs] eqn:Eq; cbn in Ef; try discriminate.
+      - destruct Hwf as [Hb _]. inversion Hb as [|? ? [Hne _] _]; congruence.
+      - cbn in Ef. inversion Ef; subst. constructor; [lia|]. now apply wf_head_min. }
+    apply (run_sorted_lb n Hmono q (vts v0) Hwf Hlb).
 Qed.
 
 (** ** clause 3 at the level of runs *)
@@ -1284,14 +1285,45 @@ Proof.
   - specialize (IH H). destruct (Nat.eqb (vid x) (vid y)); lia.
 Qed.
 
-Lemma run_ts_step n : forall q a x b y c,
+(** with int64 fields a successful step stays within the delta bounds *)
+Definition i64v (x : value) : Prop := vts x <= max_i64 /\ vdmax x <= max_i64.
+
+Lemma next_value_step_fixed v g v' g' :
+  fix_C20_2 = true -> i64v v -> next_value v g = RV (Some v') g' ->
+  (0 <= vdmin v /\ vdmin v <= vts v' - vts v <= vdmax v) /\ i64v v'.
+Proof.
+  intros Hfix [Ht Hd] H. apply next_value_some in H.
+  destruct H as (_ & _ & _ & _ & Hdm & (t & t' & Hts) & _).
+  unfold update_ts in Hts. rewrite Hfix in Hts.
+  split; [eapply update_ts_gen_step; eauto|].
+  split; [|congruence].
+  destruct (update_ts_gen_spec _ _ _ _ _ _ _ _ Hd Hts) as (_ & _ & r & _ & -> & _).
+  apply wrap64_range.
+Qed.
+
+Lemma run_forall (P : value -> Prop) :
+  (forall v g v' g', P v -> next_value v g = RV (Some v') g' -> P v') ->
+  forall n q, wf (qb q) -> Forall P (flat (qb q)) -> Forall P (fst (run n q)).
+Proof.
+  intros Hstep. induction n as [|n IH]; intros q Hwf Hinv; cbn [run]; [constructor|].
+  destruct (next q) as [|v q'| | |] eqn:En; cbn; try constructor.
+  - destruct (next_emit _ _ _ Hwf En) as (rest & Hfl & _). rewrite Hfl in Hinv. now inversion Hinv.
+  - destruct (next_emit _ _ _ Hwf En) as (rest & Hfl & Hwf' & _ & Hcase).
+    rewrite Hfl in Hinv. inversion Hinv as [|? ? Hv Hrest]; subst.
+    apply IH; [assumption|].
+    destruct Hcase as [(g' & _ & ->)|(v' & g' & m1 & m2 & Hnv & -> & -> & _ & _)]; [assumption|].
+    apply Forall_app in Hrest. destruct Hrest as [H1 H2].
+    apply Forall_app. split; [assumption|]. constructor; [|assumption]. eapply Hstep; eauto.
+Qed.
+
+Lemma run_ts_step n : fix_C20_2 = true -> forall q a x b y c,
   wf (qb q) -> NoDup (ids (flat (qb q))) ->
   fst (run n q) = a ++ x :: b ++ y :: c -> vid y = vid x ->
   (forall w, In w b -> vid w <> vid x) ->
-  vts x + vdmax x <= max_i64 ->
+  i64v x ->
   0 <= vdmin x /\ vdmin x <= vts y - vts x <= vdmax x.
 Proof.
-  induction n as [|n IH]; intros q a x b y c Hwf Hnd Htr Hid Hb Hg; cbn [run] in Htr.
+  intros Hfix. induction n as [|n IH]; intros q a x b y c Hwf Hnd Htr Hid Hb Hg; cbn [run] in Htr.
   - destruct a; discriminate.
   - destruct (next q) as [|v q'| | |] eqn:En; cbn in Htr; try (destruct a; discriminate).
     destruct (next_emit_ids _ _ _ Hwf Hnd En) as (rest & Hfl & Hwf' & Hnd' & Hcase).
@@ -1306,24 +1338,45 @@ Proof.
         assert (y = x').
         { eapply (first_emit n q' b y c x'); eauto; try congruence.
           intros u Hu. rewrite Hid. now apply Hb. }
-        subst x'. destruct (next_value_ts_step' _ _ _ _ Hnv) as [_ Hs]. apply Hs. assumption.
+        subst x'. apply (next_value_step_fixed _ _ _ _ Hfix Hg Hnv).
     + eapply (IH q' a x b y c); eauto.
 Qed.
 
+Lemma latest_of_le vs : Forall i64v vs -> latest_of vs <= max_i64.
+Proof.
+  unfold latest_of. assert (H : forall m, m <= max_i64 -> Forall i64v vs ->
+    fold_left (fun m v => if vts v >? m then vts v else m) vs m <= max_i64).
+  { induction vs as [|v vs IH]; cbn; intros m Hm Hf; [assumption|].
+    inversion Hf as [|? ? [Hv _] Hf']; subst. apply IH; [|assumption].
+    destruct (vts v >? m); assumption. }
+  apply H. unfold max_i64. lia.
+Qed.
+
 (** clause 4: between two consecutive emissions of one value the timestamp
-    advances by at least delta_min and at most delta_max (no int64 overflow) *)
+    advances by at least delta_min and at most delta_max, for every
+    configuration whose timestamps and deltas are int64 values *)
 Theorem ts_step_bounds vs g ds n a x b y c :
-  ids_ok vs ->
+  ids_ok vs -> Forall i64v vs ->
   fst (run_cfg vs g ds n) = a ++ x :: b ++ y :: c -> vid y = vid x ->
   (forall w, In w b -> vid w <> vid x) ->
-  vts x + vdmax x <= max_i64 ->
   0 <= vdmin x /\ vdmin x <= vts y - vts x <= vdmax x.
 Proof.
-  intros Hok Htr. unfold run_cfg in Htr. destruct (reset_total vs g ds) as [q E]. rewrite E in Htr.
+  intros Hok H64 Htr Hid Hb. unfold run_cfg in Htr.
+  destruct (reset_total vs g ds) as [q E]. rewrite E in Htr.
   pose proof (reset_wf _ _ _ _ E) as Hwf.
   assert (Hnd : NoDup (ids (flat (qb q)))).
   { eapply Permutation_NoDup; [symmetry; eapply reset_ids; eauto|now apply full_cfg_nodup]. }
-  eapply run_ts_step; eauto.
+  assert (Hall : Forall i64v (fst (run n q))).
+  { apply run_forall; [|assumption|].
+    - intros v g0 v' g' Hv Hn. exact (proj2 (next_value_step_fixed _ _ _ _ eq_refl Hv Hn)).
+    - rewrite Forall_forall. intros z Hz. rewrite (reset_In _ _ _ _ E) in Hz.
+      unfold full_cfg in Hz. destruct ds.
+      + rewrite Forall_forall in H64. auto.
+      + apply in_app_or in Hz. destruct Hz as [Hz|[<-|[]]].
+        * rewrite Forall_forall in H64. auto.
+        * split; cbn; [now apply latest_of_le|unfold max_i64; lia]. }
+  eapply (run_ts_step n eq_refl); eauto.
+  rewrite Forall_forall in Hall. apply Hall. rewrite Htr. apply in_or_app. right. now left.
 Qed.
 
 (** clause 6: the emitted sequence is a function of the configuration and the
@@ -1333,27 +1386,37 @@ Theorem deterministic vs g ds n r1 r2 :
   run_cfg vs g ds n = r1 -> run_cfg vs g ds n = r2 -> r1 = r2.
 Proof. congruence. Qed.
 
-(** ** the width guard (KF-C20-1) *)
+(** ** the width guard (C20_1, repaired by c1a0b35) *)
 
-(** with int64 fields, [Next] panics only through an [Int63n] width that left int64 *)
-Theorem update_ts_panic_iff ts dmin dmax t :
-  fix_C20_1 = false ->
-  update_ts ts dmin dmax t = RPanic <->
+(** before the repair updateTimestamp panicked exactly when the width left int64 *)
+Theorem update_ts_unpatched_panic_iff f2 ts dmin dmax t :
+  update_ts_gen false f2 ts dmin dmax t = RPanic <->
   (0 <= ts /\ 0 <= dmin <= dmax /\ wrap64 (dmax - dmin + 1) <= 0).
 Proof.
-  intros Hfix. unfold update_ts, guard_width. rewrite Hfix. cbn [andb].
+  unfold update_ts_gen, guard_width_gen. cbn [andb].
   destruct (ts <? 0) eqn:E1; zb.
   - split; [discriminate|lia].
   - destruct ((dmin >? dmax) || (dmin <? 0)) eqn:E2.
     + split; [discriminate|]. intros (_ & H & _). apply orb_true_iff in E2. destruct E2; zb; lia.
     + zb. destruct (int63n (wrap64 (dmax - dmin + 1)) t) as [r t1| | |] eqn:Er; cbn [rbind].
-      * cbv zeta. destruct (fix_C20_2 && _);
+      * cbv zeta. destruct (f2 && _);
           (split; [discriminate|]; intros (_ & _ & Hw); apply int63n_range in Er; lia).
       * apply int63n_panic_iff in Er. split; [intros _; lia|reflexivity].
       * split; [discriminate|]. intros (_ & _ & Hw).
         apply (proj2 (int63n_panic_iff _ t)) in Hw. congruence.
       * split; [discriminate|]. intros (_ & _ & Hw).
         apply (proj2 (int63n_panic_iff _ t)) in Hw. congruence.
+Qed.
+
+(** now it never does *)
+Theorem update_ts_no_panic f2 ts dmin dmax t : update_ts_gen true f2 ts dmin dmax t <> RPanic.
+Proof.
+  unfold update_ts_gen, guard_width_gen. cbn [andb].
+  destruct (ts <? 0); [discriminate|]. destruct ((dmin >? dmax) || (dmin <? 0)); [discriminate|].
+  destruct (wrap64 (dmax - dmin + 1) <=? 0) eqn:Ew; [discriminate|]. zb.
+  pose proof (int63n_no_panic (wrap64 (dmax - dmin + 1)) t Ew) as Hn.
+  destruct (int63n _ t) as [r t1| | |]; cbn [rbind]; try congruence; try discriminate.
+  cbv zeta. destruct (f2 && _); discriminate.
 Qed.
 
 (** * Non-vacuity: a concrete configuration meeting the hypotheses, and the
@@ -1383,11 +1446,8 @@ Example ex_run_shape :
    (2%nat, 12, 1); (1%nat, 12, 0); (0%nat, 13, 2); (1%nat, 14, 0)].
 Proof. vm_compute. reflexivity. Qed.
 
-Example ex_no_overflow : no_ts_overflow (fst (run_cfg ex_vals ex_tape false 8)).
-Proof.
-  remember (fst (run_cfg ex_vals ex_tape false 8)) as tr eqn:E. vm_compute in E. subst tr.
-  unfold no_ts_overflow. repeat (constructor; [cbn [vts vdmax]; unfold max_i64; lia|]). constructor.
-Qed.
+Example ex_i64 : Forall i64v ex_vals.
+Proof. repeat constructor; cbn; unfold max_i64; lia. Qed.
 
 (** the sync (identity 3) is emitted fourth, after values 0, 2 and 1 *)
 Example ex_sync_position :
@@ -1406,35 +1466,38 @@ Example ex_done :
   snd r = EDone /\ map vid (fst r) = [1%nat; 0%nat; 2%nat; 0%nat].
 Proof. vm_compute. split; reflexivity. Qed.
 
-(** KF-C20-2: without the overflow guard the order claim is false *)
+(** regression witnesses of the two repaired defects *)
 Definition kf2_vals : list value :=
   [ mkValue 0 9223372036854775805 5 5 2 None (KInt 1 NNone);
     mkValue 1 9223372036854775806 0 0 2 None (KBool true LNone) ].
 
-Theorem ts_nondecreasing_refuted :
-  fix_C20_2 = false ->
-  exists vs g ds n, ~ StronglySorted Z.le (map vts (fst (run_cfg vs g ds n))).
-Proof.
-  intros Hfix. unfold fix_C20_2 in Hfix.
-  first
-    [ discriminate Hfix      (* once the patch is in, the statement is vacuous *)
-    | exists kf2_vals, [0; 0; 0; 0], false, 3%nat;
-      remember (map vts (fst (run_cfg kf2_vals [0; 0; 0; 0] false 3))) as l eqn:E; vm_compute in E;
-      subst l; intros H; inversion H as [|? ? _ Hf]; subst; inversion Hf as [|? ? Hlt _]; subst; lia ].
-Qed.
-
-(** KF-C20-1: a configuration with int64 fields on which Next panics *)
 Definition kf1_vals : list value :=
   [ mkValue 0 6 3 3 5 None (KInt 0 (NRange (-9000000000000000000) 9000000000000000000 0 0)) ].
 
-Theorem no_panic_refuted :
-  fix_C20_1 = false -> exists vs g ds n, snd (run_cfg vs g ds n) = EPanic.
+(** C20_2: the unpatched updateTimestamp moved an int64 timestamp backwards *)
+Theorem update_ts_unpatched_wraps :
+  exists ts dmin dmax t ts' t',
+    0 <= ts <= max_i64 /\ 0 <= dmin <= dmax /\ dmax <= max_i64 /\
+    update_ts_gen false false ts dmin dmax t = RV ts' t' /\ ts' < ts.
 Proof.
-  intros Hfix. unfold fix_C20_1 in Hfix.
-  first
-    [ discriminate Hfix
-    | exists kf1_vals, [1; 2; 3], false, 2%nat; vm_compute; reflexivity ].
+  exists 9223372036854775805, 5, 5, [0], (-9223372036854775806), [].
+  unfold max_i64. repeat split; try lia.
 Qed.
+
+(** C20_1: the unpatched updateTimestamp panicked on an int64 configuration *)
+Theorem update_ts_unpatched_panics :
+  exists ts dmin dmax t, 0 <= ts <= max_i64 /\ 0 <= dmin <= dmax /\ dmax <= max_i64 /\
+    update_ts_gen false false ts dmin dmax t = RPanic.
+Proof.
+  exists 0, 0, max_i64, [1]. unfold max_i64. repeat split; try lia.
+Qed.
+
+(** on the repaired code both witnesses end the stream with an error *)
+Example kf2_now_error : run_cfg kf2_vals [0; 0; 0; 0] false 3 = ([], EErr).
+Proof. vm_compute. reflexivity. Qed.
+
+Example kf1_now_error : snd (run_cfg kf1_vals [1; 2; 3] false 2) = EErr.
+Proof. vm_compute. reflexivity. Qed.
 
 (** ** soundness of the executable order clause K_P applies to the
     implementation's observations ([FakeQCheck.ts_sorted_from]) *)
@@ -1460,4 +1523,124 @@ Proof.
   induction l as [|e l IH]; intros H; [constructor|].
   unfold timed in *. cbn in *. destruct (FakeQCheck.e_id e); [|auto].
   cbn. apply (ts_sorted_from_sound l _ H).
+Qed.
+
+(** * FixedQueue *)
+
+Section FixedProofs.
+Context {R : Type}.
+Implicit Types (arr : list R) (r sync : R).
+
+Lemma skipn_nth_cons arr off r : nth_error arr off = Some r -> skipn off arr = r :: skipn (S off) arr.
+Proof.
+  revert off. induction arr as [|a arr IH]; intros [|off]; cbn; try discriminate.
+  - intros H; inversion H; reflexivity.
+  - intros H. now apply IH.
+Qed.
+
+(** Next delivers the window of the slice, in order *)
+Lemma fq_run_elems n : forall arr off len,
+  (off + len <= List.length arr)%nat ->
+  fq_run n (mkSl arr off len) = firstn n (sl_elems (mkSl arr off len)).
+Proof.
+  induction n as [|n IH]; intros arr off len Hle; [reflexivity|].
+  cbn [fq_run]. unfold fq_next. cbn [s_len s_arr s_off]. destruct len as [|len].
+  - unfold sl_elems. cbn. reflexivity.
+  - destruct (nth_error arr off) as [r|] eqn:En.
+    + rewrite IH by lia. unfold sl_elems. cbn [s_len s_arr s_off].
+      rewrite (skipn_nth_cons _ _ _ En). reflexivity.
+    + apply nth_error_None in En. lia.
+Qed.
+
+Lemma firstn_app_exact {A} (l1 l2 : list A) : firstn (List.length l1) (l1 ++ l2) = l1.
+Proof. rewrite firstn_app, Nat.sub_diag, firstn_all. cbn. apply app_nil_r. Qed.
+
+Lemma set_at_length i r arr : (i < List.length arr)%nat -> List.length (set_at i r arr) = List.length arr.
+Proof.
+  intros H. unfold set_at. rewrite app_length, firstn_length. cbn [List.length].
+  rewrite skipn_length. lia.
+Qed.
+
+(** strict delivery: the generator built from arr[:k] emits those k responses
+    and then the sync marker, whatever the fix switch *)
+Theorem fixed_strict_delivery arr k nosync sync steps :
+  (k <= List.length arr)%nat ->
+  fq_run steps (fst (fixed_reset arr k nosync sync)) =
+  firstn steps (firstn k arr ++ if nosync then [] else [sync]).
+Proof.
+  intros Hk. unfold fixed_reset, fq_new, fq_add. cbn [fst].
+  assert (Hlen : List.length (firstn k arr) = k) by (rewrite firstn_length; lia).
+  destruct fix_C20_3; cbn [s_len].
+  - (* copied slice *)
+    change (sl_elems {| s_arr := arr; s_off := 0; s_len := k |}) with (firstn k arr).
+    destruct nosync.
+    + rewrite fq_run_elems by (cbn; rewrite firstn_length; lia).
+      unfold sl_elems. cbn [s_len s_off s_arr skipn]. rewrite app_nil_r.
+      f_equal. rewrite firstn_firstn. f_equal. lia.
+    + unfold sl_append. cbn [s_len s_off s_arr]. rewrite Hlen, Nat.add_0_l, Nat.ltb_irrefl.
+      change (sl_elems {| s_arr := firstn k arr; s_off := 0; s_len := k |})
+        with (firstn k (firstn k arr)).
+      replace (firstn k (firstn k arr)) with (firstn k arr) by (rewrite firstn_firstn; f_equal; lia).
+      rewrite fq_run_elems by (cbn; rewrite app_length, Hlen; cbn; lia).
+      unfold sl_elems. cbn [s_len s_off s_arr skipn].
+      replace (S k) with (List.length (firstn k arr ++ [sync]))
+        by (rewrite app_length; cbn; lia).
+      now rewrite firstn_all.
+  - (* shared slice *)
+    destruct nosync.
+    + rewrite fq_run_elems by (cbn; lia). unfold sl_elems. cbn [s_len s_off s_arr skipn].
+      now rewrite app_nil_r.
+    + unfold sl_append. cbn [s_len s_off s_arr]. rewrite Nat.add_0_l.
+      destruct (k <? List.length arr)%nat eqn:E.
+      * apply Nat.ltb_lt in E.
+        rewrite fq_run_elems by (cbn [s_arr]; rewrite set_at_length by lia; lia).
+        unfold sl_elems, set_at. cbn [s_len s_off s_arr].
+        change (skipn 0 (firstn k arr ++ sync :: skipn (S k) arr))
+          with (firstn k arr ++ sync :: skipn (S k) arr).
+        replace (firstn k arr ++ sync :: skipn (S k) arr)
+          with ((firstn k arr ++ [sync]) ++ skipn (S k) arr) by (rewrite <- app_assoc; reflexivity).
+        replace (S k) with (List.length (firstn k arr ++ [sync])) at 1
+          by (rewrite app_length; cbn; lia).
+        now rewrite firstn_app_exact.
+      * rewrite fq_run_elems by (cbn; unfold sl_elems; cbn; rewrite app_length, Hlen; cbn; lia).
+        unfold sl_elems. cbn [s_len s_off s_arr skipn].
+        replace (S k) with (List.length (firstn k arr ++ [sync])) by (rewrite app_length; cbn; lia).
+        now rewrite firstn_all.
+Qed.
+
+(** the caller's array is left alone when the sync is disabled, and always
+    once NewFixed no longer shares the slice *)
+Theorem fixed_reset_keeps_config arr k nosync sync :
+  fix_C20_3 = true \/ nosync = true -> snd (fixed_reset arr k nosync sync) = arr.
+Proof.
+  unfold fixed_reset. cbn [snd]. intros [->| ->]; [reflexivity|].
+  now rewrite orb_true_r.
+Qed.
+
+(** hence every generator of a scenario emits what its own prefix says *)
+Theorem fixed_scenario_repro ks : forall arr nosync sync steps,
+  fix_C20_3 = true \/ nosync = true ->
+  Forall (fun k => (k <= List.length arr)%nat) ks ->
+  fixed_scenario arr ks nosync sync steps =
+  map (fun k => firstn steps (firstn k arr ++ if nosync then [] else [sync])) ks.
+Proof.
+  induction ks as [|k ks IH]; intros arr nosync sync steps Hfix Hks; [reflexivity|].
+  inversion Hks; subst. cbn [fixed_scenario map].
+  rewrite fixed_strict_delivery by assumption.
+  rewrite (fixed_reset_keeps_config arr k nosync sync Hfix). f_equal. now apply IH.
+Qed.
+End FixedProofs.
+
+(** DEFECT C20_3: with the shared slice, a generator built from a shorter prefix
+    of the same array changes what the next generator of the full
+    configuration emits (same configuration, different sequence) *)
+Theorem fixed_repro_refuted :
+  fix_C20_3 = false ->
+  exists (arr : list nat) k sync steps,
+    nth 0 (fixed_scenario arr [List.length arr; k; List.length arr] false sync steps) [] <>
+    nth 2 (fixed_scenario arr [List.length arr; k; List.length arr] false sync steps) [].
+Proof.
+  intros Hfix. unfold fix_C20_3 in Hfix.
+  first [ discriminate Hfix
+        | exists [1; 2; 3]%nat, 2%nat, 9%nat, 10%nat; vm_compute; discriminate ].
 Qed.
